@@ -14,7 +14,7 @@ COMMON_AS = [
 ]
 
 PROPS = {}
-HOOK_COMMITS = []
+HOOK_COMMITS = ["e220ebea8a1e5de7708b107eff0326913e45a118"]
 
 PROPS["C03"] = dict(
     gen=cases.gen_C03,
@@ -145,4 +145,79 @@ PROPS["C15"] = dict(
          "constructors with clock advances, set_delta, set_time, erroring clocks; TimeGetterFromGetter over all input categories",
     trusted_base=COMMON_TB,
     assumptions=["clock + offset arithmetic does not overflow i64 (generators stay in range)"],
+)
+
+MP_RULE = ("random start/end states (positions within ±1e4 mm, start/end velocities inside, at, and outside the limit, non-zero end "
+           "velocities, reversed moves, non-zero accelerations in the states), limits log-uniform in 1e-2..1e3 (also given negative), "
+           "~75% accepted, rest rejected by each of the three asserts or by a unit panic; query times: negative, 0, i64 extremes, each of "
+           "t1,t2,t3 −1/0/+1 ns (boundaries read from the real constructor's Debug output), midpoints, after completion, random inside "
+           "the move; all six accessors + History::get compared bit-for-bit with the Float32 model")
+
+PROPS["C06"] = dict(
+    gen=cases.gen_C06,
+    oracle=cases.oracle_C06,
+    mask={"cat", "time", "unit", "float"},
+    rule=MP_RULE + "; plus a structural oracle on the implementation's own outputs (absence iff t<0, piece order, mode vs piece, "
+                   "history = matching accessor bit-identically, end command after completion, 0<=t1<=t2<=t3)",
+    trusted_base=COMMON_TB + ["new_times_ordered is tier L: five named monotonicity facts about binary32 (x*1e9, `as i64`, a<=a+b for b>=0, "
+                              "transitivity of <=, 0*1e9 as i64 = 0)"],
+    assumptions=["Time arithmetic inside the accessors does not overflow (true for profiles in the stated ranges)"],
+)
+
+PROPS["C07"] = dict(
+    gen=cases.gen_C07,
+    oracle=cases.oracle_C07,
+    mask={"cat", "time", "unit", "float"},
+    tol=NUM_TOL,
+    rule=MP_RULE + "; dense random query times on [0,t3]; every input with zero state accelerations is paired with its mirror (positions and "
+                   "velocities negated) and the outputs must be exact negations; numeric oracle on the implementation's outputs: acceleration "
+                   "in {±max_acc, 0} with the displacement's sign, start values at t=0, speed bound, position = trapezoid integral of "
+                   "velocity inside each piece, continuity across 1-2 ns, arrival at the goal — tolerances proportional to f32 epsilon "
+                   "times the magnitudes (incl. eps*t3*slope for the f32-second phase durations)",
+    trusted_base=COMMON_TB,
+    assumptions=["Time arithmetic inside the accessors does not overflow"],
+    partial="Proved in exact arithmetic (tier R): closed forms per piece, position is the exact integral of velocity on each piece, "
+            "continuity at t2 (and at t1 for even t1; the odd-t1 jump is exactly a*t1*0.5 ns), velocity bound, acceptance when there is "
+            "room, arrival and mirror symmetry for start.position != end.position. NOT proved: truncation of the phase durations to ns and "
+            "binary32 rounding (the property's 'within a tolerance' clauses) — tested by the numeric oracle.",
+)
+
+DEV_TB = COMMON_TB + ["terminals/devices are modelled as an index-addressed world; RefCell/lifetime plumbing of the Rust code is not modelled "
+                      "beyond the borrow panics of connect/disconnect"]
+
+PROPS["C08"] = dict(
+    gen=cases.gen_C08,
+    mask={"cat", "time", "float"},
+    tol=NUM_TOL,
+    rule="inverter, gear train (raw ratio, tooth lists of 2..6, Quantity ratio on all 49 units), axle of 0..6 terminals, differential in all "
+         "four trust modes and via new(): every subset of terminals having/lacking data (exhaustive for <=3 terminals), each terminal "
+         "connected to an external terminal or not, data written on the own or the external side, 1..4 (8) set/update rounds; after each "
+         "update all own slots and all three reads of every terminal are printed and compared bit-for-bit",
+    trusted_base=DEV_TB,
+    assumptions=COMMON_AS,
+    partial="Least-squares optimality, constraint satisfaction and fixed points are proved over an ordered field (tier R); which slots are "
+            "written, from which reads, with which timestamp is tier S. f32 rounding of the projection formulas is not proved.",
+)
+
+PROPS["C13"] = dict(
+    gen=cases.gen_C13,
+    mask={"cat", "time", "float"},
+    tol=NUM_TOL,
+    rule="the C08 device scenarios with commands of all three kinds carrying distinct timestamps written on own/external terminals (some "
+         "terminals without a command), 1..4 (8) rounds; chains of 1..5 inverters/gear trains/axles joined by connected terminals with a "
+         "command issued at either end and the devices updated in order; all command reads compared bit-for-bit",
+    trusted_base=DEV_TB,
+    assumptions=COMMON_AS + ["gear_relays_newest assumes the gear train's two terminals are not wired to each other (degenerate loop)"],
+)
+
+PROPS["C20"] = dict(
+    gen=cases.gen_C20,
+    mask={"cat", "time", "float"},
+    tol=NUM_TOL,
+    rule="random sequences of up to 32 events per wrapper: state/command written on the connected external terminal or on the wrapper's own "
+         "terminal, inner settable accepting/rejecting, inner update ok/erroring, inner getter present/absent/erroring, disconnect, update; "
+         "the values received by the recording inner settable / motor and the terminal contents are compared with the model; for the PID "
+         "wrapper the model's motor value IS the stand-alone CommandPID model fed the same (time,state,command) sequence (theorem)",
+    trusted_base=DEV_TB,
+    assumptions=COMMON_AS,
 )
